@@ -68,7 +68,7 @@ impl ToiAllocatorInternal {
             TOIMaxLength::ToiMax48 => toi & 0xFFFFFFFFFFFFu128,
             TOIMaxLength::ToiMax64 => toi & 0xFFFFFFFFFFFFFFFFu128,
             TOIMaxLength::ToiMax80 => toi & 0xFFFFFFFFFFFFFFFFFFFFu128,
-            TOIMaxLength::ToiMax112 => toi,
+            TOIMaxLength::ToiMax112 => toi & 0xFFFFFFFFFFFFFFFFFFFFFFFFFFFFu128,
         }
     }
 
